@@ -1,6 +1,6 @@
 (* C15 -- bench reader and writer are faithful (line-AST level).  Statements only; proofs in Proofs/BenchProofs.v. *)
 From stdpp Require Import strings gmap sets.
-From CG Require Import Model.Bench Model.BenchSpec Model.Lint Proofs.BenchProofs Proofs.BenchRoundProofs Proofs.BenchReadProofs Proofs.BenchFinal.
+From CG Require Import Model.Bench Model.BenchSpec Model.Lint Proofs.BenchProofs Proofs.BenchRoundProofs Proofs.BenchReadProofs Proofs.BenchFinal Model.BenchScan Proofs.RegexProofs.
 Open Scope string_scope.
 
 (* ---- obligations on the regenerated tables of io.py ---- *)
@@ -110,6 +110,37 @@ Theorem C15_bench_roundtrip : ∀ C ord,
 Proof. exact bench_roundtrip. Qed.
 Print Assumptions C15_bench_roundtrip.
 
+(* ---- character level (Model/Regex.v: executable model of re; Model/BenchScan.v: comment removal, the four findall scans on
+   the regex terms regenerated from io.py, the .replace/.split post-processing) ---- *)
+(* at the start of its canonical statement (what circuit_to_bench prints; DFF lines alike) each scan pattern matches exactly the
+   statement, for every identifier / every gate name of the alternation / every non-empty identifier operand list and any
+   following text, and the reader's post-processing of the captures gives back the line *)
+Theorem C15_stmt_input : ∀ n rest, ident n = true →
+  ∃ cs, match_here rd_re_input (render_line (BInput n) ++ rest) = Some (rest, cs) ∧ BInput <$> split_ops (group 1 cs) = [BInput n].
+Proof. exact stmt_input. Qed.
+Print Assumptions C15_stmt_input.
+Theorem C15_stmt_output : ∀ n rest, ident n = true →
+  ∃ cs, match_here rd_re_output (render_line (BOutput n) ++ rest) = Some (rest, cs) ∧ BOutput <$> split_ops (group 1 cs) = [BOutput n].
+Proof. exact stmt_output. Qed.
+Print Assumptions C15_stmt_output.
+Theorem C15_stmt_gate : ∀ net g ops rest, ident net = true → g ∈ rd_alts → ops ≠ [] → Forall (λ o, ident o = true) ops →
+  ∃ cs, match_here rd_re_gate (render_line (BGate net g ops) ++ rest) = Some (rest, cs)
+    ∧ BGate (text_of (group 1 cs)) (text_of (group 2 cs)) (split_ops (group 3 cs)) = BGate net g ops.
+Proof. exact stmt_gate. Qed.
+Print Assumptions C15_stmt_gate.
+Theorem C15_stmt_dff : ∀ q d rest, ident q = true → ident d = true →
+  ∃ cs, match_here rd_re_dff (render_line (BDff q d) ++ rest) = Some (rest, cs)
+    ∧ BDff (text_of (group 1 cs)) (text_of (clean (group 3 cs))) = BDff q d.
+Proof. exact stmt_dff. Qed.
+Print Assumptions C15_stmt_dff.
+
+(* FULL character-level statement for the canonical rendering: the four scans recover the line list.  Proved: the four
+   statement theorems above (every statement is recognised where it starts and decoded correctly).  Missing: that no scan
+   matches anywhere else in a canonical text (no false match inside or across statements) and the composition over findall;
+   decided per generated well-formed line list by Run_C15.agree, which also compares the scan of every generated text
+   (random layout, comments) with the line list. *)
+Definition C15_scan_canonical_full : Prop := ∀ ls, wfb ls = true → scan_codes (render ls) = by_pass ls.
+
 (* ---- non-vacuity: a well-formed text with a repeated operand, a constant-producing line and two chained flops ---- *)
 Definition ex_lines := [BOutput "y"; BDff "q1" "q2"; BGate "y" "XOR" ["a"; "a"; "q1"]; BGate "k" "xnor" ["a"; "a"];
                         BDff "q2" "k"; BInput "a"; BGate "z" "BUFF" ["y"]; BOutput "a"].
@@ -128,4 +159,6 @@ Definition ex_ord : word := {| o_in := ["b"; "a"]; o_out := ["g"; "a"; "k1"]; o_
   o_fi := [("g", ["k0"; "a"; "b"]); ("h", ["g"])]; o_const := "b" |}.
 Example C15_ex_round : lint_cleanb ex_circ && match bench_write ex_circ ex_ord with
   | Ok ls => bool_decide (bench_read "t" ls = Ok (bench_closed "t" ls) ∧ bench_closed "t" ls = ex_circ) | _ => false end = true.
+Proof. vm_compute. reflexivity. Qed.
+Example C15_ex_scan : bool_decide (scan_codes (render ex_lines) = by_pass ex_lines) = true.
 Proof. vm_compute. reflexivity. Qed.
